@@ -84,11 +84,14 @@ POOL = [
     # the same match layout with and without an unmatched character between two tokens (a memo keyed by match positions would carry the gap decision over)
     {"text": "05.03.2019@09:30", "ts": TS1, "kw": {}},
     {"text": "05.03.2019 09:30", "ts": TS1, "kw": {}},
+    # a call in which a PRODUCTION raises (reference time at the edge of the datetime range): it fails the same way every time and leaves nothing behind
+    {"text": "tomorrow", "ts": "9999-12-31T12:00:00", "kw": {}},
+    {"text": "tomorrow", "ts": TS1, "kw": {}},
 ]
 TS_COMPONENT = [23, 24, 25]
 SHIFT_PAIRS = [(13, 14), (15, 16), (17, 18), (19, 20), (21, 22)]
 FAIL = 7
-CALLABLE = list(range(13)) + [13, 14, 23, 24, 25, 27, 28, 29, 30, 31, 32, 33, 34, 35]  # history alphabet (the offset-shift pairs beyond #14 are exercised by the stream merges)
+CALLABLE = list(range(13)) + [13, 14, 23, 24, 25, 27, 28, 29, 30, 31, 32, 33, 34, 35, 36, 37]  # history alphabet (the offset-shift pairs beyond #14 are exercised by the stream merges)
 OPENABLE = [0, 3, 5, 9, 10, 13]
 MERGE_POOL = [0, 1, 3, 4, 5, 8, 9, 10, 11, 12]
 SCHED_PAIRS_QUICK = [(9, 6, "one", "one"), (9, 9, "gen", "one")]
